@@ -38,15 +38,20 @@ def story_item_parts(tier, mon, *, timing_variants=True, small=False, mixed=True
     if tier == 'quick':
         parts = [
             {'label': 'stories-pool4-cap3-L2' if small else 'stories-pool5-cap4-L2',
-             'harness': HStory(pool=4 if small else 5, cap=3 if small else 4, max_list=2, layouts=('before', 'after')),
+             'harness': HStory(pool=4 if small else 5, cap=3 if small else 4, max_list=2, layouts=('before',)),
              'monitors': mon},
-            {'label': 'stories-between-pool4-cap3-L2', 'harness': HStory(pool=4, cap=3, max_list=2, layouts=('between',), nmeta=2),
+            {'label': 'stories-between+after-pool4-cap3-L2', 'harness': HStory(pool=4, cap=3, max_list=2, layouts=('between', 'after'), nmeta=2),
              'monitors': mon},
             {'label': 'items-pool4-cap3-L2' if small else 'items-pool5-cap4-L2',
-             'harness': HItem(pool=4 if small else 5, cap=3 if small else 4, max_list=2, patterns=('plain',)), 'monitors': mon},
+             'harness': HItem(pool=4 if small else 5, cap=3 if small else 4, max_list=2, patterns=('plain',), positions=('second',)), 'monitors': mon},
             {'label': 'items-interleaved-pool4-cap3-L2',
-             'harness': HItem(pool=4, cap=3, max_list=2, patterns=('p-between',), positions=('second',)), 'monitors': mon},
+             'harness': HItem(pool=4, cap=3, max_list=2, patterns=('p-between',), positions=('first',)), 'monitors': mon},
         ]
+        # lists of three IDs / carried elements on a small pool (a fault that needs a third element)
+        parts.append({'label': 'stories-pool4-cap3-L3', 'harness': HStory(pool=4, cap=3, max_list=3, layouts=('before',), packings=('one',)),
+                      'monitors': mon})
+        parts.append({'label': 'items-pool4-cap3-L3', 'harness': HItem(pool=4, cap=3, max_list=3, patterns=('plain',), positions=('second',),
+                                                                      packings=('one',)), 'monitors': mon})
         if timing_variants:
             parts.append({'label': 'stories-no-timing-metadata',
                           'harness': HStory(pool=4, cap=3, max_list=2, layouts=('before',), timing=MIXED_TIMING), 'monitors': mon})
